@@ -102,10 +102,12 @@ def _judge_chunk(ctx, path, idx, tag):
     return json.loads(json.loads(m.group(2))), (int(g.group(1)), int(g.group(2))) if g else (0, 0)
 
 
-def judge(ctx, obs, tag, chunk=25000, par=6):
+def judge(ctx, obs, tag, chunk=None, par=6):
     """Judge an observation file with Iso_Trace.tla, in chunks cut at case boundaries, several TLC processes at a time."""
     t0 = time.time()
     lines = open(obs).readlines()
+    if chunk is None:
+        chunk = min(25000, max(5000, len(lines) // par + 1))
     paths, i = [], 0
     while i < len(lines):
         j = min(len(lines), i + chunk)
@@ -184,45 +186,62 @@ def run(ctx):
     if on("mc"):
         model_check(ctx)
     if on("seq"):
-        # (1) every call-level interleaving of two documents, one goroutine
-        seq = gen(ctx, "gen_seq.cfg", "SpecGen", "Emit", 2, CORE, 3, 3 if q else 4, "seq")
+        # (1) every call-level interleaving of two documents (both acting), one goroutine
+        if q:
+            seq = gen(ctx, "gen_seq.cfg", "SpecGen", "Emit", 2, CORE, 3, 3, "seq")
+        else:
+            seq = gen(ctx, "gen_seq.cfg", "SpecGen", "Emit", 2, CORE, 2, 4, "seq")
         ctx.exhaustive = True
         execute(ctx, seq, "seq", "seq")
         if not q:
-            full = gen(ctx, "gen_full.cfg", "SpecGen", "Emit", 2, FULL, 3, 3, "full")
-            execute(ctx, full, "full", "seq")
+            full2 = gen(ctx, "gen_full2.cfg", "SpecGen", "Emit", 2, FULL, 1, 2, "full2")
+            execute(ctx, full2, "full2", "seq")
+            full3 = gen(ctx, "gen_full3.cfg", "SpecGen", "Emit", 2, FULL, 2, 3, "full3")
+            execute(ctx, full3, "full3", "seq")
     d = 8 if q else 10
     if on("sim"):
         # (2) seeded random longer schedules over three documents and the whole alphabet
-        sim = gen(ctx, "gen_sim.cfg", "SpecGen", "Emit", 3, FULL, 4, d, "sim", mode="sim", num=4 if q else 60, depth=d + 1,
-                  limit=250 if q else 4000)
+        sim = gen(ctx, "gen_sim.cfg", "SpecGen", "Emit", 3, FULL, 4, d, "sim", mode="sim", num=4 if q else 40, depth=d + 1,
+                  limit=250 if q else 2500)
         execute(ctx, sim, "sim", "seq")
     if on("gate"):
         # (3) one goroutine per document, the schedule forced by a blocking gate at call granularity
-        gate = gen(ctx, "gen_gate.cfg", "SpecGen", "Emit", 2, CORE if q else FULL, 2, 2 if q else 3, "gate")
+        gate = gen(ctx, "gen_gate.cfg", "SpecGen", "Emit", 2, CORE if q else FULL, 1 if q else 1, 2, "gate")
         execute(ctx, gate, "gate", "go")
+        if not q:
+            gate3 = gen(ctx, "gen_gate3.cfg", "SpecGen", "Emit", 2, CORE, 2, 3, "gate3")
+            execute(ctx, gate3, "gate3", "go")
     if on("sub"):
         # (4) sub-step schedules in which the as-built model predicts a duplicate id, forced at the hook points
         sub = gen(ctx, "gen_sub.cfg", "SpecGenSub", "EmitSub", 2, SUBOPS, 2, 2, "sub")
         execute(ctx, sub, "sub", "go")
         if not q:
             sub3 = gen(ctx, "gen_sub3.cfg", "SpecGenSub", "EmitSub", 2, SUBOPS + ["RemoveFootnote"], 2, 3, "sub3",
-                       mode="sim", num=400, depth=16, limit=3000)
+                       mode="sim", num=300, depth=16, limit=2500)
             execute(ctx, sub3, "sub3", "go")
     if on("race"):
         # (5) the same programs free-running on one goroutine per document under the race detector
         race = gen(ctx, "gen_race.cfg", "SpecGen", "Emit", 2, CORE if q else FULL, 1, 2, "race")
-        execute(ctx, race, "race", "race", rounds=4 if q else 12)
+        execute(ctx, race, "race", "race", rounds=24 if q else 40)
         if not q:
-            race2 = gen(ctx, "gen_race2.cfg", "SpecGen", "Emit", 3, FULL, 3, 7, "race2", mode="sim", num=8, depth=8, limit=300)
-            execute(ctx, race2, "race2", "race", rounds=6)
+            race2 = gen(ctx, "gen_race2.cfg", "SpecGen", "Emit", 3, FULL, 3, 7, "race2", mode="sim", num=8, depth=8, limit=200)
+            execute(ctx, race2, "race2", "race", rounds=24)
     if not ctx.extra_cov.get("library_has_registry_hooks"):
         ctx.assumptions.append("the library under test has no notes./numbering. hook points: sub-step schedules were executed "
                                "at call granularity (each call ran at its 'begin' entry)")
     ctx.assumptions.append("memory-level races are observed by the Go race detector on the executed programs only")
     if only:
         ctx.assumptions.append("C07_ONLY=%s: only these stages were run" % ",".join(sorted(only)))
-    ctx.extra_cov["bounds"] = dict(seq_depth=3 if q else 4, docs=2, sim_docs=3, sim_depth=d, alphabet_core=CORE, alphabet_full=FULL)
+    ctx.extra_cov["bounds"] = dict(
+        seq="2 documents, alphabet_core, every interleaving of %s calls with both documents acting (exhaustive)"
+            % ("3 (programs <= 2+1)" if q else "4 (programs 2+2)"),
+        full=None if q else "2 documents, alphabet_full, every interleaving of 2 calls (1+1) and of 3 calls (2+1) (exhaustive)",
+        sim="3 documents, alphabet_full, %d calls, seeded random" % d,
+        gate="one goroutine per document, every 1+1 schedule%s" % ("" if q else " over alphabet_full and every 2+1 schedule over alphabet_core"),
+        sub="every schedule of 2 registry calls (1+1 and 2+0 excluded) at hook-point granularity in which the as-built model predicts a duplicate id"
+            + ("" if q else "; random ones of 3 calls"),
+        race="every pair of single calls free-running under -race, %d rounds each" % (24 if q else 40),
+        alphabet_core=CORE, alphabet_full=FULL)
     model_diag(ctx)
     return ctx.finish(LEVEL, RULE)
 
